@@ -1563,20 +1563,20 @@ def ac10_index_space(fc: FnCls, R: RuleResult) -> int:
                     and s.value.attr in count_names:
                 cn.add(s.targets[0].id)
         for sub in ast.walk(f.node):
-            if isinstance(sub, ast.Subscript) and isinstance(sub.slice, ast.Slice) and isinstance(sub.value, ast.Name):
+            if isinstance(sub, ast.Subscript) and isinstance(sub.slice, ast.Slice) and isinstance(sub.value, (ast.Name, ast.Call)):
                 used = {x.id for b in (sub.slice.lower, sub.slice.upper) if b is not None for x in ast.walk(b) if isinstance(x, ast.Name)}
                 if not (used & cn):
                     continue
                 n += 1
-                sp = space.get(sub.value.id)
-                what = "%s in %s: `%s` lives in the %s argument space" % (ast.unparse(sub), f.qualname, sub.value.id, sp or "unknown")
+                sp = space.get(sub.value.id) if isinstance(sub.value, ast.Name) else _space_of(sub.value, space)
+                what = "%s in %s: `%s` lives in the %s argument space" % (ast.unparse(sub), f.qualname, ast.unparse(sub.value)[:60], sp or "unknown")
                 if sp == "full":
                     R.ok(f.fq, what)
                 elif sp in ("tensor", "mixed"):
                     R.bad(f, enclosing_stmt(sub), "the explicit-parameter count slices a tensor-only list: positions are shifted by every non-tensor argument, "
                           "so the user function receives the wrong arguments when params mixes tensors and non-tensors", what=what)
                 else:
-                    R.bad(f, enclosing_stmt(sub), "cannot establish that `%s` is in the full argument space before it is sliced by the parameter count" % sub.value.id, what=what)
+                    R.bad(f, enclosing_stmt(sub), "cannot establish that `%s` is in the full argument space before it is sliced by the parameter count" % ast.unparse(sub.value)[:60], what=what)
     return n
 
 
